@@ -24,7 +24,7 @@ def run(chk, tier):
                 'built from Some(value.into()), the multi-use closure returns Some(value.clone()); K3: eval::eval turns an exhausted value '
                 'into an error; composite kinds propagate None without fabricating a partial value; K1: no leak primitives; TYWIT: '
                 'compile-fail witnesses (with compiling twins) show the builder rejects multi-use quantifiers for non-Clone values.')
-    for cfg in configs(tier, thorough=('std', 'mocks', 'nostd-spin', 'nostd')):
+    for cfg in configs(tier, quick=('std', 'nostd'), thorough=('std', 'mocks', 'nostd-spin', 'nostd')):
         F = load(chk, cfg)
         from props import builder as B
         B.conversion_table(chk, F, 'R12.7', cfg)
